@@ -252,3 +252,15 @@ package types
 //@   modifies t.transaction
 //@   emits Rollback(trans)
 //@   ensures one_rollback_slot_cleared: ntrace() == n0 + 1 && emitted(n0) == Rollback(trans) && t.transaction == nil
+
+// ---------------------------------------------------------------------------
+// C10: the replace mode of a target source. The XML a NETCONF device gets carries the replace operation on every
+// top-level element of the document (the document itself has no element of its own that is serialised).
+//@ func (*TargetSourceReplace).ToXML
+//@   props C10
+//@   nosafety only where the operation goes is claimed
+//@   requires t != nil
+//@   loop 0 invariant every_top_level_element_is_replaced [C10]: $seq == callres(ChildElements, 0) &&
+//@            ($n > 0 ==> called(AddXMLOperation) && callarg(AddXMLOperation, 0, 0) == $seq[$i] && callarg(AddXMLOperation, 0, 1) == utils.XMLOperationReplace &&
+//@             callarg(AddXMLOperation, 0, 2) == operationWithNamespace)
+//@   ensures the_rendering_of_the_source_is_handed_on [C10]: r1 == nil ==> r0 == callres(ToXML, 0, 0) && callarg(ToXML, 0, 1) == onlyNewOrUpdated && callarg(ToXML, 0, 2) == honorNamespace
